@@ -1,4 +1,5 @@
 import SSVerif.Proofs.JsonAlign
+set_option linter.unusedSimpArgs false
 /-! C14 helper lemmas: the two passes of `decoder_result_json` -/
 namespace SSVerif.Json
 
